@@ -254,6 +254,15 @@ func (h *FBDNSDB) ServeDNSWithRCODE(ctx context.Context, w dns.ResponseWriter, r
 				resp.RecursionDesired, resp.CheckingDisabled = false, false
 				resp.SetReply(r)
 				resp.Rcode = rcode
+				// Records owned by the query name are spelled like the question that filled the
+				// entry; spell them like this question, as FindAnswer does on a cache miss
+				// (name compression is case-sensitive: a reply whose owner names do not match
+				// its question is larger and may no longer fit the client's buffer).
+				for _, rr := range resp.Answer {
+					if hdr := rr.Header(); strings.EqualFold(hdr.Name, state.QName()) {
+						hdr.Name = state.QName()
+					}
+				}
 				if r.IsEdns0() != nil {
 					o = new(dns.OPT)
 					o.Hdr.Name = "."
